@@ -287,6 +287,15 @@ def conf_family(tier: str):
                             for res in (("t" * n, ("mt" * n)[:n]) if q else ("t" * n, ("mt" * n)[:n], "a" * n)):
                                 yield dict(n=n, es=es, seq=seq, prio=prio, res=res, mc=2 if n < 4 else 3, is_async=False, ties=0,
                                            conf={"via": via, "init": {"seq": list(init_seq), "prio": list(init_prio)}, "after_warm": after_warm})
+            # the reconfiguration is done from inside a node of a call in flight (re-entrant use of the object), then a call is explored
+            if n <= 3:
+                for seq, prio in finals[::3][:4] + finals[1:2]:  # every sequential pattern once, and one priority change
+                    # built with NO sequential node (all sequential when the final pattern has none): stale flags would show as overlap
+                    init_seq = (False,) * n if any(seq) else (True,) * n
+                    init_prio = tuple(x + 1 for x in reversed(prio))
+                    for res in ("t" * n, ("mt" * n)[:n]):
+                        yield dict(n=n, es=es, seq=seq, prio=prio, res=res, mc=2, is_async=False, ties=0,
+                                   conf={"via": "id", "init": {"seq": list(init_seq), "prio": list(init_prio)}, "during_warm": True})
             # partial configuration: only node 0 is (re)configured; the others keep their built attributes
             for prio in (tuple(range(n - 1, -1, -1)), tuple(2 if j == n - 1 else 0 for j in range(n))):
                 init_prio = list(prio)
